@@ -28,6 +28,44 @@ streq(const char *a, const char *b)
 	}
 	return 0;
 }
+#ifdef SCONN
+/* C20: a connection arrives at the HTTP server (websocket listeners sit on it) and its HTTP state cannot be allocated
+ * (http_sconn_init: nni_http_init fails).  The half-made connection object is closed and handed to the reaper before it
+ * was attached to the server.  Decided: NNG_ENOMEM, the stream is released exactly once, the reaper's http_sc_reap runs
+ * without touching a server that was never recorded, nothing leaks. */
+extern int   env_reap_pending(void);
+extern void *env_reap_take(int);
+static int   streams_freed, conn_finis;
+static struct nng_stream the_stream;
+nng_err
+nni_http_init(nng_http **connp, nng_stream *stream, bool client)
+{
+	(void) connp, (void) client;
+	(void) stream;
+	streams_freed++; /* core: nni_http_init frees the stream when it fails */
+	return NNG_ENOMEM;
+}
+void
+nni_http_conn_fini(nng_http *c)
+{
+	(void) c;
+	conn_finis++;
+}
+void
+harness(void)
+{
+	http_sconn *sc = NULL;
+	nng_err     rv = http_sconn_init(&sc, &the_stream);
+	CHECK(rv == NNG_ENOMEM && sc == NULL, "the accept path is told that the connection could not be set up");
+	CHECK(streams_freed == 1, "the stream is released exactly once");
+	CHECK(env_reap_pending() == 1, "the half-made connection object is handed to the reaper");
+	http_sc_reap(env_reap_take(0));
+	CHECK(env_alloc_live == 0, "C20: nothing is left allocated");
+	CHECK(env_locks_held == 0 && conn_finis == 0, "no lock held, no HTTP state finalized that never existed");
+	WITNESS("half-made connection reaped");
+	WITNESS("end");
+}
+#else
 void
 harness(void)
 {
@@ -67,3 +105,4 @@ harness(void)
 	CHECK(env_alloc_live == 0, "all memory returned");
 	WITNESS("end");
 }
+#endif
